@@ -253,7 +253,96 @@ fn report_failure(args: &Args, rep: &mut Report, ast: &OpeningHoursExpression, h
     rep.violation("timezone_mapping", format!("{text:?} [{}] zone {tz}: {what}", hol.to_string()), json!({"expr": text, "holidays": hol.to_string(), "zone": tz.name(), "instant_utc": i_utc.to_string(), "input_zones": zones.iter().map(|z| z.name()).collect::<Vec<_>>(), "span_minutes": span.num_minutes()}), known);
 }
 
+
+
+/// One (context zone, input zone, instant) triple of the input-zone sweep. `Err` = violation text.
+fn check_input_pair(text: &str, z: Tz, w: Tz, i_utc: NaiveDateTime) -> Result<(), String> {
+    let Some((_, tz_oh)) = build_both(text, &HolSpec::None, z) else { return Ok(()) };
+    let i_z = z.from_utc_datetime(&i_utc);
+    let wall = i_z.naive_local();
+    let first_of = |i: DateTime<Tz>| guarded(|| tz_oh.iter_range(i.clone(), i.clone() + Duration::days(2)).next().map(|iv| (iv.range.start.clone(), iv.range.end.clone(), iv.kind)));
+    let want_next = guarded(|| tz_oh.next_change(i_z.clone())).ok().flatten();
+    let want_first = first_of(i_z.clone()).ok().flatten();
+    let i_w = w.from_utc_datetime(&i_utc);
+    let got_state = guarded(|| tz_oh.state(i_w.clone()));
+    let got_next = guarded(|| tz_oh.next_change(i_w.clone()));
+    let got_first = first_of(i_w.clone());
+    let offs = format!("offsets {} s vs {} s", i_z.offset().fix().local_minus_utc(), i_w.offset().fix().local_minus_utc());
+    match got_state {
+        Ok(k) if k == RuleKind::Open => {}
+        other => return Err(format!("instant given in zone {w} ({offs}): state({i_w}) = {other:?} although the wall clock in {z} reads {wall}, inside the open minute")),
+    }
+    match (&got_next, &want_next) {
+        (Ok(Some(a)), Some(b)) if a == b && a.timezone() == z => {}
+        (Ok(None), None) => {}
+        _ => return Err(format!("instant given in zone {w} ({offs}): next_change({i_w}) = {got_next:?}, but the same instant given in the context zone ({i_z}) gives {want_next:?}")),
+    }
+    match (&got_first, &want_first) {
+        (Ok(Some(a)), Some(b)) if a == b && a.0 == i_z => {}
+        _ => return Err(format!("instant given in zone {w} ({offs}): first interval of iter_range({i_w}, +2 days) = {got_first:?}; the same instant given in the context zone gives {want_first:?} (it must start at the requested instant)")),
+    }
+    Ok(())
+}
+
+/// Every context zone x every zone the INPUT instant can be expressed in, at instants where offsets
+/// are "odd" (local-mean-time era: second-granular offsets) and ordinary: the instant is converted
+/// to the context zone whatever zone it arrives in. For the instant's wall-clock minute `hh:mm` in
+/// the context zone the rule `hh:mm-(hh:mm + 1 min)` is open exactly during that minute; the instant
+/// is taken at second 0 and at second 59 of the minute, so a conversion that is off by even one
+/// second in either direction leaves the minute at one of the two. The same call with the instant
+/// expressed in the context zone itself is the reference for `next_change` and the first interval.
+fn input_zone_sweep(args: &Args, rep: &mut Report) {
+    let of = args.of.max(1) as usize;
+    let years: &[i32] = if args.thorough() { &[1901, 1905, 1912, 1919, 1925, 1931, 1950, 2024] } else { &[1905, 1925, 2024] };
+    for (zi, z) in chrono_tz::TZ_VARIANTS.iter().enumerate() {
+        if zi % of != args.worker as usize || rep.full() {
+            continue;
+        }
+        let z = *z;
+        for &year in years {
+            for sec in [0u32, 59] {
+                // a UTC instant whose wall clock in Z is at second `sec` of its minute
+                let base = NaiveDate::from_ymd_opt(year, 6, 15).unwrap().and_hms_opt(11, 37, 0).unwrap() + Duration::days((zi % 28) as i64);
+                let wall0 = z.from_utc_datetime(&base).naive_local();
+                let i_utc = base + Duration::seconds(sec as i64 - wall0.second() as i64);
+                let i_z = z.from_utc_datetime(&i_utc);
+                let wall = i_z.naive_local();
+                if wall.second() != sec {
+                    rep.count("input_zone_sweep_skipped_unaligned");
+                    continue;
+                }
+                let (h, m) = (wall.hour(), wall.minute());
+                let (h2, m2) = if m == 59 { (h + 1, 0) } else { (h, m + 1) };
+                let text = format!("{h:02}:{m:02}-{h2:02}:{m2:02}");
+                let Some((_, tz_oh)) = build_both(&text, &HolSpec::None, z) else { continue };
+                match guarded(|| tz_oh.state(i_z.clone())) {
+                    Ok(k) if k == opening_hours_syntax::rules::RuleKind::Open => {}
+                    other => {
+                        rep.violation("input_zone", format!("{text:?} in zone {z}: state({i_z}) = {other:?}, but the wall clock reads {wall} (inside the open minute)"), json!({"expr": text, "zone": z.name(), "input_zone_sweep": z.name(), "instant_utc": i_utc.to_string()}), None);
+                        continue;
+                    }
+                }
+                for w in chrono_tz::TZ_VARIANTS.iter() {
+                    rep.evaluations += 1;
+                    match check_input_pair(&text, z, *w, i_utc) {
+                        Ok(()) => rep.count("input_zone_pairs_checked"),
+                        Err(msg) => {
+                            rep.violation("input_zone", format!("{text:?} in zone {z}: {msg}"), json!({"expr": text, "zone": z.name(), "input_zone_sweep": w.name(), "instant_utc": i_utc.to_string()}), None);
+                            if rep.full() {
+                                return;
+                            }
+                        }
+                    }
+                }
+            }
+        }
+    }
+}
+
 pub fn run(args: &Args, rep: &mut Report) {
+    if !args.extra.iter().any(|e| e == "nosweep") {
+        input_zone_sweep(args, rep);
+    }
     let n = args.cases(120_000, 1_200_000);
     let mut cache = HashMap::new();
     let mut st = MapStats::default();
@@ -438,6 +527,13 @@ pub fn replay(args: &Args, case: &Value, rep: &mut Report) {
         rep.violation("bad_replay", "replay without instant_utc".into(), case.clone(), None);
         return;
     };
+    if let Some(w) = case["input_zone_sweep"].as_str() {
+        rep.evaluations += 1;
+        if let Err(msg) = check_input_pair(&text, tz, parse_tz(w), i_utc) {
+            rep.violation("input_zone", format!("{text:?} in zone {tz}: {msg}"), case.clone(), None);
+        }
+        return;
+    }
     let zones: Vec<Tz> = case["input_zones"].as_array().map(|a| a.iter().filter_map(|v| v.as_str()).map(parse_tz).collect()).unwrap_or_default();
     let span = Duration::minutes(case["span_minutes"].as_i64().unwrap_or(1440));
     rep.evaluations += 1;
